@@ -451,7 +451,13 @@ def report(prop, mod, a, outs, seed, t0):
     )
     os.makedirs(os.path.join(VERIF, 'evidence'), exist_ok=True)
     if not a.only:
-        with open(os.path.join(VERIF, 'evidence', prop + '.json'), 'w') as f:
+        evdir = os.path.join(VERIF, 'evidence')
+        if os.environ.get('PYVC_REPO', '/repo') not in ('/repo', ''):
+            # development runs against a scratch copy (mutation testing) must
+            # not overwrite the evidence of /repo itself
+            evdir = os.path.join(VERIF, 'replays', 'scratch_evidence')
+            os.makedirs(evdir, exist_ok=True)
+        with open(os.path.join(evdir, prop + '.json'), 'w') as f:
             json.dump(ev, f, indent=1, default=str)
     for line in known_lines:
         print(line)
